@@ -80,6 +80,11 @@ def perturb_prior(rng, L, root):
             with open(fp, 'wb') as f:
                 f.write(fm.compress(b'', comp))
         out.append({'prior': 'unregistered_' + kind, 'p': mp})
+    if rng.random() < 0.06 and os.path.isfile(os.path.join(root, 'Manifest')):
+        # the top-level Manifest lists itself: no entry for it can ever be right, the update has to drop it
+        with open(os.path.join(root, 'Manifest'), 'ab') as f:
+            f.write(rng.choice([b'DATA Manifest 0\n', b'MISC Manifest 71 SHA1 c016a9b7204924fca3ffe05759a2723887b284cf\n']))
+        out.append({'prior': 'self_listed', 'p': 'Manifest'})
     return out
 
 
@@ -228,7 +233,7 @@ def _run_history(root, L, rng, namer, opts, meta, cli=False):
            'nonmf_changed': [namer.path(p) for p in nonmf],
            'written': [namer.path(p) for p in written],
            'removed': [namer.path(p) for p in removed],
-           'second_changed': [], 'verify_after': '', 'second_end': '',
+           'second_changed': [], 'verify_after': '', 'second_end': '', 'same_loader': '',
            'meta': dict(meta, opts={k: v for k, v in opts.items()}, cli=cli)}
     if ev['end'] == 'ok':
         # fresh verification of what was updated
@@ -253,6 +258,27 @@ def _run_history(root, L, rng, namer, opts, meta, cli=False):
                 obs, _ = gem.call(ld3.save_manifests)
             rec['second_end'] = obs['end'] + (':' + obs['exc'] if obs['exc'] else '')
             rec['second_changed'] = [namer.path(p) for p in diff_snap(snap3, raw_snapshot(root))]
+        # a further edit + update + save on the SAME loader object (library users keep one loader; the
+        # Manifests it renamed while (de)compressing must still be saved in the right order), then a
+        # fresh verification.  Last, because it changes the tree.
+        if not cli and opts.get('extra_round', True) and rec['second_end'] in ('ok', '') \
+                and rec['verify_after'] == 'ok' and rng.random() < 0.4:
+            cands = [p for p in sorted(L.files) if os.path.isfile(os.path.join(root, p))
+                     and (not sub or p.startswith(sub + '/'))
+                     and not any(c.startswith('.') for c in p.split('/'))]
+            if cands:
+                p = rng.choice(cands)
+                with open(os.path.join(root, p), 'ab') as f:
+                    f.write(b'~second round')
+                obs, _ = gem.call(ld.update_entries_for_directory, sub)
+                if obs['end'] == 'ok':
+                    obs, _ = gem.call(ld.save_manifests)
+                if obs['end'] == 'ok':
+                    obs, ld4 = gem.call(gem.loader, os.path.join(root, ld.top_level_manifest_filename))
+                    if obs['end'] == 'ok':
+                        obs, _ = gem.call(ld4.assert_directory_verifies, sub)
+                rec['same_loader'] = obs['end'] + (':' + obs['exc'] if obs['exc'] else '')
+                rec['meta']['same_loader_edit'] = p
     recs.append(rec)
     return recs
 
@@ -561,7 +587,7 @@ def lookalike_update(args):
             dst = os.path.join(base, order)
             shutil.copytree(src, dst, symlinks=True)
             opts = {'hashes': hs, 'sub': sub, 'sort': sort, 'force': False, 'wm': None, 'fmt': None,
-                    'profile': 'default', 'scandir_order': order}
+                    'profile': 'default', 'scandir_order': order, 'extra_round': False}
             namer = fm.Namer()
             pre_snap = raw_snapshot(dst)
             rr = run_history(dst, L, rng, namer, opts, {'seed': seed, 'idx': idx, 'lookalike': [short, long_], 'order': order})
@@ -576,6 +602,70 @@ def lookalike_update(args):
         return recs
     finally:
         shutil.rmtree(base, ignore_errors=True)
+
+
+def twin_update(args):
+    """Directed family for C10 (and C03): files of the same name and content at two levels, so that the
+    entries of the outer and the inner Manifest compare EQUAL as values (tag, relative path, size, digests)
+    although they describe different files; stale entries for vanished files on both levels; entries for
+    files inside the sub-directory that live in the outer Manifest.  Whatever the update does to an entry
+    must be done to the entry of THAT Manifest."""
+    seed, idx, o = args
+    rng = random.Random('twin-%d-%d' % (seed, idx))
+    root = tlc.scratch_dir('vtw')
+    try:
+        L = gen.Layout(rng)
+        sub = rng.choice(['pkg', 'a/pkg'])
+        L.dirs = [''] + (['a'] if sub.startswith('a/') else []) + [sub, 'other']
+        comp = rng.choice(gen.COMPS)
+        smf = sub + '/Manifest' + ('' if comp == 'plain' else '.' + comp)
+        L.mf['Manifest'] = []
+        L.mf[smf] = []
+        hs = rng.choice(HASHSETS)
+        twins = rng.sample(['LICENSE', 'metadata.xml', 'empty', 'README'], rng.randrange(1, 4))
+        for t in twins:
+            data = b'' if t == 'empty' else ('twin content of ' + t).encode()
+            tag = rng.choice(['DATA', 'DATA', 'MISC'])
+            hs_in = hs if rng.random() < 0.8 else rng.choice(HASHSETS)
+            L.files[t] = data
+            L.files[sub + '/' + t] = data
+            L.add_file_entry('Manifest', t, data, tag, hs)
+            L.add_file_entry(smf, sub + '/' + t, data, tag, hs_in)
+        # files of the sub-directory: listed inside, or in the outer Manifest, or in both
+        for n in ('data', 'old.txt', 'keep'):
+            p = sub + '/' + n
+            L.files[p] = ('content of ' + n).encode()
+            where = rng.choice(['in', 'out', 'both'])
+            if where in ('in', 'both'):
+                L.add_file_entry(smf, p, L.files[p], 'DATA', hs)
+            if where in ('out', 'both'):
+                L.add_file_entry('Manifest', p, L.files[p], 'DATA', hs)
+        L.files['other/x'] = b'xx'
+        L.add_file_entry('Manifest', 'other/x', b'xx', 'DATA', hs)
+        L.mf['Manifest'].append({'tag': 'MANIFEST', 'path': smf, 'size': 0, 'ck': {'SHA256': ''}, 'ref': smf})
+        L.mf['Manifest'].append({'tag': 'DIST', 'path': 'd.tar', 'size': 1, 'ck': {}})
+        if rng.random() < 0.3:
+            L.mf['Manifest'].append({'tag': 'IGNORE', 'path': 'other/junk'})
+        L.write(root)
+        edits = []
+        cands = [sub + '/' + t for t in twins] + [sub + '/data', sub + '/old.txt'] + \
+            ([rng.choice(twins)] if rng.random() < 0.2 else [])
+        for p in rng.sample(cands, rng.randrange(1, min(4, len(cands)) + 1)):
+            fp = os.path.join(root, p)
+            if os.path.exists(fp):
+                if rng.random() < 0.75:
+                    os.unlink(fp)
+                    edits.append({'m': 'delete', 'p': p})
+                else:
+                    with open(fp, 'ab') as f:
+                        f.write(b'+')
+                    edits.append({'m': 'alter_size', 'p': p})
+        opts = {'hashes': hs if rng.random() < 0.8 else rng.choice(HASHSETS), 'sub': rng.choice([sub, sub, '']),
+                'sort': rng.choice([None, True, False]), 'force': False, 'wm': None, 'fmt': None, 'profile': 'default'}
+        namer = fm.Namer()
+        return run_history(root, L, rng, namer, opts, {'seed': seed, 'idx': idx, 'twin': twins, 'edits': edits, 'prior': []})
+    finally:
+        shutil.rmtree(root, ignore_errors=True)
 
 
 # ---------------------------------------------------------------------------------------------
@@ -628,7 +718,8 @@ def replay_update(args):
         fm.materialise(scn, root, conc=conc, palette={'c0': 3, 'c1': 3, 'c2': 5})
         sub = conc.path(beh['sub'])
         wm = beh['wm']
-        opts = {'hashes': ['SHA1'], 'sub': sub, 'sort': None, 'force': False, 'wm': None if wm < 0 else wm,
+        opts = {'hashes': list(beh.get('hashes') or ['SHA1']), 'sub': sub, 'sort': None, 'force': False,
+                'wm': None if wm < 0 else wm,
                 'fmt': None, 'profile': 'default', 'scandir_order': rng.choice(['asc', 'desc'])}
         namer = fm.Namer()
 
